@@ -969,3 +969,6 @@ CASES["C12"] += [
 CASES["C13"] += [
     ("reintroduce F-53 (every barrier empties the pending list)", "mutant", "snaxc/transforms/insert_sync_barrier.py", "@revert:b9ac12d~1", "", ["C13.barrier-scope"]),
 ]
+CASES["C11"] += [
+    ("reintroduce F-55 (expand_shape / collapse_shape views not followed)", "mutant", "snaxc/transforms/snax_allocate.py", "@revert:ab213d3~1", "", ["C11.lifetime"]),
+]
